@@ -42,7 +42,8 @@ type sshScn struct {
 	Paths    []string `json:"paths"`
 	Admit    bool     `json:"admit"`
 	Both     bool     `json:"both"`
-	Real     bool     `json:"real"` // run the gokr-rsync binary built from /repo (RSVERIF_GOKR) instead of the in-process listener
+	NoReply  bool     `json:"noreply"` // exec request sent with want-reply = false
+	Real     bool     `json:"real"`    // run the gokr-rsync binary built from /repo (RSVERIF_GOKR) instead of the in-process listener
 }
 
 type sshObs struct {
@@ -254,7 +255,12 @@ func sshHandler(w *workerCtx, line []byte) (any, error) {
 			var rerr error
 			switch s.Req {
 			case "exec":
-				rerr = sess.Start(cmdline)
+				if s.NoReply {
+					// the want-reply flag is the client's to choose: no answer is waited for
+					_, rerr = sess.SendRequest("exec", false, ssh.Marshal(struct{ Command string }{cmdline}))
+				} else {
+					rerr = sess.Start(cmdline)
+				}
 			case "shell":
 				rerr = sess.Shell()
 			case "env":
@@ -373,6 +379,10 @@ func sshHandler(w *workerCtx, line []byte) (any, error) {
 			obs.Outcome = "daemon-protocol"
 		case obs.NOut == 0 && obs.Exit > 0:
 			obs.Outcome = "refused" // accepted, but ended with an error status without a byte on the channel
+		case s.NoReply && obs.Exit != 0 && !bytes.HasPrefix(snapshot(), []byte{27, 0, 0, 0}):
+			// no reply was asked for, so a refusal can only show as: no rsync protocol on the channel (not even after
+			// the probe) and no successful exit status - a refusal message in plain text is not a command that ran
+			obs.Outcome = "refused"
 		default:
 			obs.Outcome = "command"
 		}
